@@ -570,37 +570,66 @@ class Visitor(ast.NodeVisitor):
         return result
 
     def visit_BoolOp(self, node: ast.BoolOp) -> Any:
-        """Recursively visit the operands and apply the operation on them."""
-        values = [self.visit(value_node) for value_node in node.values]
+        """
+        Recursively visit the operands and apply the operation on them.
+
+        The operands are evaluated lazily, exactly as Python evaluates them: the operands
+        after the one which determined the result are neither visited nor recomputed.
+        """
+        if not isinstance(node.op, (ast.And, ast.Or)):
+            raise NotImplementedError("Unhandled op of {}: {}".format(node, node.op))
+
+        values = []  # type: List[Any]
+        for value_node in node.values:
+            value = self.visit(value_node)
+            values.append(value)
+
+            # Please see "NOTE ABOUT PLACEHOLDERS AND RE-COMPUTATION"
+            #
+            # The truthiness of a placeholder is unknown, so we keep on visiting the remaining
+            # operands.
+            if value is PLACEHOLDER:
+                continue
+
+            if isinstance(node.op, ast.And):
+                if not value:
+                    break
+            else:
+                if value:
+                    break
 
         # Please see "NOTE ABOUT PLACEHOLDERS AND RE-COMPUTATION"
         if any(value is PLACEHOLDER for value in values):
             return PLACEHOLDER
 
-        if isinstance(node.op, ast.And):
-            result = functools.reduce(lambda left, right: left and right, values, True)
-        elif isinstance(node.op, ast.Or):
-            result = functools.reduce(lambda left, right: left or right, values, True)
-        else:
-            raise NotImplementedError("Unhandled op of {}: {}".format(node, node.op))
+        result = values[-1]
 
         self.recomputed_values[node] = result
         return result
 
     def visit_Compare(self, node: ast.Compare) -> Any:
-        """Recursively visit the comparators and apply the operations on them."""
+        """
+        Recursively visit the comparators and apply the operations on them.
+
+        The comparison chain is evaluated lazily, exactly as Python evaluates it: the comparators
+        after the first falsy comparison are neither visited nor recomputed.
+        """
         left = self.visit(node=node.left)
 
-        comparators = [self.visit(node=comparator) for comparator in node.comparators]
-
         # Please see "NOTE ABOUT PLACEHOLDERS AND RE-COMPUTATION"
-        if left is PLACEHOLDER or any(
-            comparator is PLACEHOLDER for comparator in comparators
-        ):
-            return PLACEHOLDER
+        #
+        # The outcome of a comparison with a placeholder is unknown, so we keep on visiting
+        # the remaining comparators.
+        involves_placeholder = left is PLACEHOLDER
 
         result = None  # type: Optional[Any]
-        for comparator, op in zip(comparators, node.ops):
+        for i, (comparator_node, op) in enumerate(zip(node.comparators, node.ops)):
+            comparator = self.visit(node=comparator_node)
+
+            if involves_placeholder or comparator is PLACEHOLDER:
+                involves_placeholder = True
+                continue
+
             if isinstance(op, ast.Eq):
                 comparison = left == comparator
             elif isinstance(op, ast.NotEq):
@@ -624,12 +653,17 @@ class Visitor(ast.NodeVisitor):
             else:
                 raise NotImplementedError("Unhandled op of {}: {}".format(node, op))
 
-            if result is None:
-                result = comparison
-            else:
-                result = result and comparison
+            result = comparison
+
+            # The truthiness of the comparison is tested only if there are more comparators to come
+            # (some objects such as numpy arrays can not be converted to a boolean).
+            if i < len(node.ops) - 1 and not comparison:
+                break
 
             left = comparator
+
+        if involves_placeholder:
+            return PLACEHOLDER
 
         self.recomputed_values[node] = result
         return result
